@@ -2,7 +2,7 @@
    Only statements; each is closed by a lemma of Proofs/Bounds.v.  [apply_bounds_1] is the model of one
    component of ropt's _apply_bounds with the MIRROR_REPEAT constant regenerated from the source;
    [perturb] is _perturb_variables on the (realizations x perturbations x variables) array. *)
-From Coq Require Import QArith Qminmax ZArith List Bool Arith.
+From Coq Require Import QArith Qminmax ZArith List Bool Arith Lia.
 From Ropt Require Import Base.Num Base.ListX Gen.Generated Model.Bounds Proofs.Bounds.
 Import ListNotations.
 Open Scope Q_scope.
@@ -68,6 +68,42 @@ Theorem C10_mirror_within : forall t lb ub y,
   Z.eqb t bt_none = false -> okb lb ub = true -> inside lb ub (apply_bounds_1 t lb ub y).
 Proof. intros t lb ub y. apply within. Qed.
 
+(* MIRROR_BOTH between two finite bounds, completely: a value that starts 2nw + e outside (w = upper - lower,
+   0 < e <= 2w) with n below the repeat count of the source (regenerated constant) is moved back by n whole
+   periods 2w and reflected at the violated bound -- once if that lands inside (e <= w), and once more at the
+   opposite bound otherwise; a value further out than 2 * MIRROR_REPEAT widths ends on the violated bound *)
+Theorem C10_mirror_repeated_lower : forall l u y n, l <= u -> (n < mirror_repeat)%nat ->
+  2 * nQ n * (u - l) < l - y -> l - y <= 2 * (nQ n + 1) * (u - l) ->
+  (l - y - 2 * nQ n * (u - l) <= u - l ->
+     apply_bounds_1 bt_mirror (Fin l) (Fin u) y == 2 * l - y - 2 * nQ n * (u - l)) /\
+  (u - l < l - y - 2 * nQ n * (u - l) ->
+     apply_bounds_1 bt_mirror (Fin l) (Fin u) y == y + 2 * (nQ n + 1) * (u - l)).
+Proof. intros l u y n. apply mirror_repeated_lower. Qed.
+Theorem C10_mirror_repeated_upper : forall l u y n, l <= u -> (n < mirror_repeat)%nat ->
+  2 * nQ n * (u - l) < y - u -> y - u <= 2 * (nQ n + 1) * (u - l) ->
+  (y - u - 2 * nQ n * (u - l) <= u - l ->
+     apply_bounds_1 bt_mirror (Fin l) (Fin u) y == 2 * u - y + 2 * nQ n * (u - l)) /\
+  (u - l < y - u - 2 * nQ n * (u - l) ->
+     apply_bounds_1 bt_mirror (Fin l) (Fin u) y == y - 2 * (nQ n + 1) * (u - l)).
+Proof. intros l u y n. apply mirror_repeated_upper. Qed.
+Theorem C10_mirror_far : forall l u y, l <= u ->
+  (2 * nQ mirror_repeat * (u - l) < l - y -> apply_bounds_1 bt_mirror (Fin l) (Fin u) y = l) /\
+  (2 * nQ mirror_repeat * (u - l) < y - u -> apply_bounds_1 bt_mirror (Fin l) (Fin u) y = u).
+Proof. intros l u y Hlu. split; [apply mirror_far_lower | apply mirror_far_upper]; exact Hlu. Qed.
+
+(* under a VariableScaler (user = optimizer * s + o, s > 0) the stored magnitude is, in the user's units, still the
+   configured absolute value or the configured fraction of the user's bound range, and the value before boundary
+   handling maps back to x + magnitude * sample *)
+Theorem C10_magnitude_scaled : forall p l u s o m, 0 < s ->
+  (Z.eqb p pt_relative = true -> efinite l && efinite u = true) ->
+  magnitude_1s p (eb_to_opt s o l) (eb_to_opt s o u) s m * s == magnitude_1 p l u m.
+Proof. exact magnitude_scaled_user. Qed.
+Theorem C10_scaled_pre_value : forall p l u s o m x sv, 0 < s ->
+  (Z.eqb p pt_relative = true -> efinite l && efinite u = true) ->
+  from_opt1 s o (to_opt1 s o x + magnitude_1s p (eb_to_opt s o l) (eb_to_opt s o u) s m * sv)
+  == x + magnitude_1 p l u m * sv.
+Proof. exact scaled_pre_value. Qed.
+
 (* magnitudes: (upper - lower) * fraction for RELATIVE variables, which need finite bounds; the configured
    value otherwise; a RELATIVE variable with an infinite bound rejects the configuration *)
 Theorem C10_relative : forall pts lbs ubs ms mags i l u,
@@ -106,8 +142,16 @@ Example C10_example :
   forallb2 (forallb2 (list_eqb Qeqb))
     (perturb ts lbs ubs [Q_ 1 4; Q_ 1 2; Q_ 1 2] [Q_ 1 2; 2; 2]
        [[[Q_ 1 2; 1; 1]; [(-1); (-3); (-3)]; [40; 0; 0]; [Q_ 13 2; 0; 0]]])
-    [[[Q_ 1 2; 1; Q_ 5 2]; [Q_ 1 4; Q_ (-11) 2; Q_ (-11) 2]; [1; Q_ 1 2; Q_ 1 2]; [Q_ 1 2; Q_ 1 2; Q_ 1 2]]] = true.
-Proof. vm_compute. repeat split; reflexivity. Qed.
+    [[[Q_ 1 2; 1; Q_ 5 2]; [Q_ 1 4; Q_ (-11) 2; Q_ (-11) 2]; [1; Q_ 1 2; Q_ 1 2]; [Q_ 1 2; Q_ 1 2; Q_ 1 2]]] = true /\
+  (* the hypotheses of C10_mirror_repeated_upper at 7/2 on [0,1] (n = 1: one whole period back, one reflection) and
+     of C10_mirror_far at 41/4; a scaled relative magnitude *)
+  ((1 < mirror_repeat)%nat /\ Qltb (2 * nQ 1 * (1 - 0)) (Q_ 7 2 - 1) = true /\
+   Qleb (Q_ 7 2 - 1) (2 * (nQ 1 + 1) * (1 - 0)) = true /\
+   Qeqb (apply_bounds_1 bt_mirror (Fin 0) (Fin 1) (Q_ 7 2)) (2 * 1 - Q_ 7 2 + 2 * nQ 1 * (1 - 0)) = true) /\
+  (Qltb (2 * nQ mirror_repeat * (1 - 0)) (Q_ 41 4 - 1) = true /\ apply_bounds_1 bt_mirror (Fin 0) (Fin 1) (Q_ 41 4) = 1) /\
+  magnitudes_scaled [pt_relative; pt_absolute] [Fin 1; NInf] [Fin 5; Fin 0] [2; 4] [1; 0] [Q_ 1 2; 2]
+    = MagOk [((5 - 1) / 2 - (1 - 1) / 2) * Q_ 1 2; 2 / 4].
+Proof. vm_compute. repeat split; try reflexivity; lia. Qed.
 
 Print Assumptions C10_formula.
 Print Assumptions C10_samples_added.
@@ -118,6 +162,11 @@ Print Assumptions C10_truncate.
 Print Assumptions C10_mirror_single_lower.
 Print Assumptions C10_mirror_single_upper.
 Print Assumptions C10_mirror_within.
+Print Assumptions C10_mirror_repeated_lower.
+Print Assumptions C10_mirror_repeated_upper.
+Print Assumptions C10_mirror_far.
+Print Assumptions C10_magnitude_scaled.
+Print Assumptions C10_scaled_pre_value.
 Print Assumptions C10_relative.
 Print Assumptions C10_relative_rejected.
 Print Assumptions C10_array_laws.
